@@ -19,6 +19,7 @@ type Relay struct {
 	links  []*Link
 	chunk  int // re-segmentation: write at most chunk bytes at a time (0 = as received)
 	closed bool
+	refuse bool
 	// HoldNew: links accepted from now on start with their upstream (dialer -> acceptor) direction held
 	HoldNewUp bool
 	// Record: keep a copy of every byte that travels upstream (dialer -> acceptor), per link
@@ -65,6 +66,13 @@ func (r *Relay) serve() {
 		a, err := r.l.Accept()
 		if err != nil {
 			return
+		}
+		r.mu.Lock()
+		refuse := r.refuse
+		r.mu.Unlock()
+		if refuse {
+			a.Close()
+			continue
 		}
 		b, err := net.Dial("tcp", r.target)
 		if err != nil {
@@ -222,6 +230,10 @@ func (lk *Link) InjectUp(data []byte) {
 	lk.up.cond.Broadcast()
 	lk.up.mu.Unlock()
 }
+
+// Refuse makes the relay turn new links away (true) or carry them again (false): together with CutAll the connection is lost for
+// good - a link that is merely cut is dialled again at once - and can be made anew later.
+func (r *Relay) Refuse(on bool) { r.mu.Lock(); r.refuse = on; r.mu.Unlock() }
 
 func (r *Relay) CutAll() {
 	for _, lk := range r.Links() {
